@@ -26,6 +26,14 @@ func (o *Operations) Delete(name string) error {
 		return err
 	}
 
+	// Release the drive again if we return before handing it over to the reader
+	writerClosed := false
+	defer func() {
+		if !writerClosed {
+			_ = o.backend.CloseWriter()
+		}
+	}()
+
 	dirty := false
 	tw, cleanup, err := tarext.NewTapeWriter(writer.Drive, writer.DriveIsRegular, o.pipes.RecordSize)
 	if err != nil {
@@ -107,6 +115,7 @@ func (o *Operations) Delete(name string) error {
 		return err
 	}
 
+	writerClosed = true
 	if err := o.backend.CloseWriter(); err != nil {
 		return err
 	}
